@@ -141,6 +141,11 @@ func RunCase(t *rapid.T, pd *PropDef, st *RunStats, known map[string]bool) {
 			ops = append(ops, *op)
 			it.Apply(op)
 		}
+		if pd.Profile.FinalOp == "roundtrip" && !it.locked() {
+			op := g.genRoundtrip(t)
+			ops = append(ops, *op)
+			it.Apply(op)
+		}
 		if pd.Extra != nil {
 			pd.Extra(it, ops)
 		}
@@ -197,6 +202,9 @@ func Replay(pd *PropDef, cs *Case) (v *Violation) {
 
 // Final runs the end-of-case checks: close open queries, full deep comparison.
 func (it *Interp) Final() {
+	if it.done {
+		return
+	}
 	// exhaust or close everything that is still open
 	ids := []int{}
 	for id, q := range it.M.Open {
